@@ -232,6 +232,20 @@ func mergeExplorers(all []*Explorer, cfg HarnessCfg) *Explorer {
 		}
 	}
 	m.Workers = len(all)
+	// existential obligations: every expected coverage goal must be reached on
+	// at least one feasible path
+	for k := range m.Reached {
+		if strings.HasPrefix(k, "expect:") {
+			tag := strings.TrimPrefix(k, "expect:")
+			m.Obligations++
+			if m.Reached["cover:"+tag] > 0 {
+				m.Discharged++
+			} else if len(m.Inconcl) == 0 {
+				m.Findings = append(m.Findings, &Finding{Harness: m.Harness, Kind: "cover", Msg: "no feasible path reaches coverage goal " + tag,
+					Model: map[string]string{}, Params: m.Params, Tier: m.Tier})
+			}
+		}
+	}
 	return m
 }
 
